@@ -149,6 +149,50 @@ fn handle(line: &str, big: &mut [u8]) -> String {
                 Err(()) => "err".into(),
             }
         }
+        ["adat", _cfg, flavour, rp, mask, count, acd, ext] => {
+            use ctap_types::ctap2::AuthenticatorDataFlags as F;
+            let Some(rp) = unhex(rp) else { return "bad-case".into() };
+            let Ok(rp): Result<[u8; 32], _> = rp.try_into() else { return "bad-case".into() };
+            let (Ok(mask), Ok(count)) = (mask.parse::<u8>(), count.parse::<u32>()) else { return "bad-case".into() };
+            let mut flags = F::empty();
+            if mask & 1 != 0 { flags |= F::USER_PRESENCE; }
+            if mask & 2 != 0 { flags |= F::USER_VERIFIED; }
+            if mask & 4 != 0 { flags |= F::ATTESTED_CREDENTIAL_DATA; }
+            if mask & 8 != 0 { flags |= F::EXTENSION_DATA; }
+            let extv = if *ext == "-" { None } else { match V::parse(ext) { Some(v) => Some(v), None => return "bad-case".into() } };
+            let parts: Vec<&str> = acd.split(':').collect();
+            let (aaguid, id, pk);
+            let acd_some = parts.len() == 4;
+            if acd_some {
+                let (Some(a), Ok(n), Ok(seed), Some(p)) = (unhex(parts[0]), parts[1].parse::<usize>(), parts[2].parse::<usize>(), unhex(parts[3])) else { return "bad-case".into() };
+                aaguid = a; pk = p;
+                id = (0..n).map(|i| ((seed + 7 * i) % 256) as u8).collect::<Vec<u8>>();
+            } else { aaguid = vec![]; id = vec![]; pk = vec![]; }
+            let res = match *flavour {
+                "MC" => {
+                    let data = ctap_types::ctap2::make_credential::AuthenticatorData {
+                        rp_id_hash: &rp, flags, sign_count: count,
+                        attested_credential_data: if acd_some { Some(ctap_types::ctap2::make_credential::AttestedCredentialData {
+                            aaguid: &aaguid, credential_id: &id, credential_public_key: &pk }) } else { None },
+                        extensions: extv.as_ref().map(glue::build_adext_mc),
+                    };
+                    data.serialize()
+                }
+                "GA" => {
+                    let data = ctap_types::ctap2::get_assertion::AuthenticatorData {
+                        rp_id_hash: &rp, flags, sign_count: count,
+                        attested_credential_data: if *acd == "none" { Some(ctap_types::ctap2::get_assertion::NoAttestedCredentialData) } else { None },
+                        extensions: extv.as_ref().map(glue::build_adext_ga),
+                    };
+                    data.serialize()
+                }
+                _ => return "bad-case".into(),
+            };
+            match res {
+                Ok(b) => format!("ok {}", hex(&b)),
+                Err(e) => format!("err {}", e as u8),
+            }
+        }
         ["tbl", name] => match glue::table(name) {
             Some(t) => t.iter().map(|(n, v)| format!("{}={}", n, v)).collect::<Vec<_>>().join(","),
             None => "bad-case".into(),
